@@ -183,6 +183,14 @@ def gen_plan(seed, tier="quick", variant=None):
         # sends issued after the last fault: must succeed within the attempt budget (C08)
         pc["max_attempts"] = max(pc["max_attempts"], 5)
         pc["acks"] = pc["acks"] or 1
+        if pc["batch_send"] and not pc["every_t"]:
+            pc["every_t"] = 0.3
+        # the documented budgets must fit: no byte-at-a-time network slower than the client timeout
+        cfg["client"]["timeout_ms"] = max(cfg["client"]["timeout_ms"], 1000)
+        if not instant:
+            cfg["lat"] = [0.0005, 0.002]
+        if cfg["seg"] == "mixed":
+            cfg["seg"] = [rng.choice(["coalesce", "writes", "random"]), rng.choice(["coalesce", "writes", "random"])]
         for j in range(rng.randint(1, 4)):
             post.append({"id": 1000 + j, "topic": rng.choice(topics)["name"], "key": ("70%04x" % j) if pc["partitioner"] == "hashed" else None,
                          "msgs": [3], "dt": round(0.5 + rng.random(), 6)})
@@ -296,6 +304,7 @@ def _run(w, plan):
             return
         if kind == "call":
             k = len(produce_calls)
+            rec["n_prod"] = k
             produce_calls.append(rec)
             payloads = rec["args"][0] if rec["args"] else rec["kw"].get("payloads")
             rec["kvs"] = {(p.topic, p.partition): _payload_kvs(p) for p in payloads}
@@ -434,8 +443,27 @@ def _run(w, plan):
         except HarnessError as e:
             res.harness_error = repr(e)
 
-    # phase 1: workload + faults, then a long fault-free tail
-    run_until(400.0)
+    # phase 1: workload + faults, then a fault-free tail that ends early once nothing is going on
+    def quiet():
+        if any(not c["done"] for c in obs.calls):
+            return False
+        if any(not dc.sim_creator.endswith(":loop") for dc in w.reactors["p0"].pending()):
+            return False
+        if any(not sends[sid]["w"].fires for sid in order) and ((not pc["batch_send"]) or pc["every_t"]):
+            return False
+        return True
+
+    while state["producer"] is None and sim.now < 200.0 and res.harness_error is None:
+        run_until(sim.now + 1.0)
+    if state["producer"] is None:
+        res.harness_error = "warm-up never finished"
+        return w.finish()
+    t_tail = t_base[0] + plan["t_faults_end"] + 3.0
+    run_until(t_tail)
+    while sim.now < 400.0 and not sim.overrun and res.harness_error is None:
+        if quiet() and sim.now > t_base[0] + plan["t_faults_end"] + 2.5:
+            break
+        run_until(sim.now + 5.0)
     settle_t = sim.now
     liveness_applicable = (not pc["batch_send"]) or bool(pc["every_t"])
     unfired_before_stop = [sid for sid in order if not sends[sid]["w"].fires]
@@ -606,8 +634,11 @@ def _run(w, plan):
             sid = bad[0]
             res.violate("C19", "C19:stop-failed-send-with-wrong-error:%s" % (sends[sid]["w"].err if not sends[sid]["w"].ok else "success"),
                         "send %d outstanding at stop() resolved with %r" % (sid, sends[sid]["w"].value))
-        if state["timers_after_stop"]:
-            res.violate("C19", "C19:timer-left-after-stop", "%r" % state["timers_after_stop"])
+        if [x for x in state["timers_after_stop"] if x == "producer.py:loop"]:
+            res.violate("C19", "C19:time-limit-timer-left-after-stop", "%r" % state["timers_after_stop"])
+        elif state["timers_after_stop"]:
+            # the statement speaks of sends and transmissions, not of timers: recorded, not judged
+            res.probe("note_retry_timer_left_after_stop")
         late = [(t, cid) for t, cid, hdr, body, kvs in produce_written if t > state["stop_t"]]
         if late:
             hist = "retry-scheduled" if state["inflight_at_stop"] else "idle"
@@ -615,7 +646,7 @@ def _run(w, plan):
                         "%d produce frames written after stop() (first at +%.3fs)" % (len(late), late[0][0] - state["stop_t"]))
         later_timers = [x for x in w.reactors["p0"].timer_log if x[0] > state["stop_seq"] and x[3].startswith("producer.py")]
         if later_timers:
-            res.violate("C19", "C19:timer-created-after-stop", "%d timers created by producer.py after stop()" % len(later_timers))
+            res.probe("note_timer_created_after_stop")
         if state["outstanding_at_stop"]:
             res.probe("stop_with_outstanding")
         if state["inflight_at_stop"]:
@@ -908,7 +939,7 @@ def _check_c09(w, plan, res, sends, order, produce_calls, state, produce_written
     batches = []
     cur = None
     for c in produce_calls:
-        kvset = set(kv for lst in c["kvs"].values() for kv in lst if kv[1] is not None)
+        kvset = set(kv for lst in c["kvs"].values() for kv in lst)
         if cur is None or not kvset <= cur["all"]:
             if cur is not None and kvset & cur["all"]:
                 res.violate("C09", "C09:batches-interleaved", "a call mixes messages of the previous batch with new ones")
@@ -919,7 +950,7 @@ def _check_c09(w, plan, res, sends, order, produce_calls, state, produce_written
     older = set()
     for b in batches:
         for c in b["calls"]:
-            kvset = set(kv for lst in c["kvs"].values() for kv in lst if kv[1] is not None)
+            kvset = set(kv for lst in c["kvs"].values() for kv in lst)
             if kvset & older:
                 res.violate("C09", "C09:older-batch-message-after-newer-batch", "")
         older |= b["all"]
@@ -975,7 +1006,12 @@ def _check_c09(w, plan, res, sends, order, produce_calls, state, produce_written
                             hit = True
                     if hit:
                         code = [pp["error"] for tt in e["resp_body"]["topics"] for pp in tt["partitions"] if pp["error"]]
-                        res.violate("C09", "C09:acknowledged-payload-resent:%s" % ("other-partition-error-%s" % _cls(code[0]) if code else "no-error-in-response"),
+                        how = _call_end(call)
+                        prev = produce_calls[c["n_prod"] - 1] if c.get("n_prod") else None
+                        via = ""
+                        if prev is not None and prev is not call:
+                            via = ":then-" + _call_end(prev)
+                        res.violate("C09", "C09:acknowledged-payload-resent:after-%s%s" % (how, via),
                                     "%s/%d acknowledged at %.4f (errors elsewhere in that response: %r) yet re-sent at %.4f" % (
                                         tp[0], tp[1], e["delivered_t"], code, c["t"]))
                         break
@@ -1011,6 +1047,22 @@ def _check_c09(w, plan, res, sends, order, produce_calls, state, produce_written
         # timers between the batches belong to the new batch's metadata lookups; the first must be the interval
         if before_next and not close(before_next[0][2], interval):
             res.violate("C09", "C09:retry-delay-not-reset-after-batch", "first delay of the next batch %.6f, interval %.4f" % (before_next[0][2], interval))
+
+
+def _call_end(call):
+    from afkak.common import BrokerResponseError, FailedPayloadsError, KafkaError
+    if not call["done"]:
+        return "call-unfinished"
+    if call["ok"]:
+        return "call-returned-responses"
+    v = call["result"].value
+    if isinstance(v, FailedPayloadsError):
+        return "FailedPayloadsError"
+    if isinstance(v, BrokerResponseError):
+        return "call-raised-broker-error-code"
+    if isinstance(v, KafkaError):
+        return "total-failure-%s" % type(v).__name__
+    return type(v).__name__
 
 
 def _cls(code):
